@@ -35,6 +35,8 @@ use vgen::relayout;
 const CHILD_VMEM_KIB: u64 = 8 << 20;
 /// Cases served by one child before it is replaced (bounds leaked memory).
 const CASES_PER_CHILD: usize = 300;
+/// Shrinking re-runs the case in a child each time (a crashing case costs a process start): keep it short.
+const SHRINK_ITERS: u32 = 80;
 
 struct Worker {
     child: Child,
@@ -225,11 +227,33 @@ pub fn run_job(job: &Job, timeout: Duration) -> Ran {
 /// `panic@<file>:<message>`: the file is repository-relative, digits in the
 /// message are normalised and anything after a quote is dropped, so the
 /// signature survives unrelated edits (line shifts) and different inputs.
-pub fn panic_signature(loc: &str, msg: &str) -> String {
+pub fn panic_signature(loc: &str, msg: &str, frames: &[String]) -> String {
     let file = loc.split(':').next().unwrap_or("");
-    let file = match file.find("crates/") {
-        Some(k) if !file.contains("/.cargo/") && !file.contains("/rustc/") => &file[k..],
-        _ => file,
+    let external = file.contains("/.cargo/") || file.contains("/rustc/") || !file.contains("crates/");
+    let file = if external {
+        // the panic is raised inside the standard library or a dependency (index / slice
+        // errors without #[track_caller]): name the repository module of the innermost
+        // repository frame instead of a toolchain path
+        frames
+            .iter()
+            .find(|f| f.contains("veryl_"))
+            .map(|f| {
+                let f = f.trim_start_matches('<');
+                let f = f.split("::<impl").next().unwrap_or(f);
+                let f = f.split(" as ").next().unwrap_or(f);
+                let mut parts: Vec<&str> = f.split("::").collect();
+                // drop the hash and the function name
+                if parts.last().map(|h| h.starts_with('h') && h.len() == 17).unwrap_or(false) {
+                    parts.pop();
+                }
+                if parts.len() > 2 {
+                    parts.pop();
+                }
+                format!("<{}>", parts.join("::"))
+            })
+            .unwrap_or_else(|| "<external>".to_string())
+    } else {
+        file[file.find("crates/").unwrap_or(0)..].to_string()
     };
     let mut short = String::new();
     let mut in_digits = false;
@@ -261,8 +285,10 @@ pub struct CaseInput {
     pub classes: Vec<String>,
     /// recursion / limit shape (non-trivial by construction)
     pub shaped: bool,
-    /// generator variant, for the skip histogram
+    /// generator family/variant: skip histogram, and the key of crash-signal / hang signatures
     pub tag: String,
+    /// reproducer of a listed finding (not subject to the generators' exclusions)
+    pub payload: bool,
     /// 0 = the tier's limit
     pub timeout_s: u64,
 }
@@ -301,11 +327,30 @@ fn inconclusive(ctx: &Ctx, c: &CaseInput, mode: &str, stage: &str, limit: Durati
 
 /// Decide one case.
 pub fn decide(ctx: &Ctx, c: &CaseInput) -> Outcome {
-    decide_within(ctx, c, timeout(ctx))
+    let out = decide_within(ctx, c, timeout(ctx));
+    // development aid: C11_HARVEST=<dir> records the first input of every unlisted signature
+    // there and carries on, so that one run collects all of them
+    if let (Outcome::Fail(f), Ok(dir)) = (&out, std::env::var("C11_HARVEST")) {
+        if !ctx.findings().iter().any(|k| k.key == f.signature) {
+            let _ = std::fs::create_dir_all(&dir);
+            let p = format!("{dir}/{:016x}.json", hash_str(&f.signature));
+            if !std::path::Path::new(&p).exists() {
+                let _ = std::fs::write(
+                    &p,
+                    serde_json::to_string_pretty(&json!({"property": "C11", "sub": "finding", "choices": null,
+                        "signature": f.signature, "message": f.message,
+                        "payload": {"files": c.files, "toml": c.toml, "modes": c.modes, "family": c.family, "tag": c.tag}}))
+                    .unwrap(),
+                );
+            }
+            return Outcome::skip(format!("harvested: {}", f.signature));
+        }
+    }
+    out
 }
 
 pub fn decide_within(ctx: &Ctx, c: &CaseInput, limit: Duration) -> Outcome {
-    if c.tag != "payload" && c.files.iter().any(|f| c11gen::branching_self_reference(&f.1)) {
+    if !c.payload && c.files.iter().any(|f| c11gen::branching_self_reference(&f.1)) {
         return Outcome::skip("excluded by construction: a definition referring to itself twice (listed finding hang:pass2:rec_const)");
     }
     let job = Job {
@@ -314,12 +359,12 @@ pub fn decide_within(ctx: &Ctx, c: &CaseInput, limit: Duration) -> Outcome {
         toml: c.toml.clone(),
         stack_mb: 0,
     };
-    let input = json!({"files": c.files, "toml": c.toml, "modes": c.modes, "family": c.family});
+    let input = json!({"files": c.files, "toml": c.toml, "modes": c.modes, "family": c.family, "tag": c.tag});
     match run_job(&job, limit) {
         Ran::TimedOut { mode, stage } => {
             // A time limit never makes a violation.  Only the reproducer of a *listed* hang
             // (demonstrated against the real binary) reports its KNOWN-FINDING line this way.
-            let sig = format!("hang:{stage}:{}", c.family);
+            let sig = format!("hang:{stage}:{}", c.tag);
             if ctx.findings().iter().any(|k| k.key == sig && k.status == "known") {
                 return Outcome::fail(sig, format!("the `{mode}` pipeline did not finish stage `{stage}` within {} CPU-s", limit.as_secs()), input);
             }
@@ -336,21 +381,9 @@ pub fn decide_within(ctx: &Ctx, c: &CaseInput, limit: Duration) -> Outcome {
             let oom = stderr.contains("memory allocation of") || stderr.contains("out of memory");
             match signal {
                 Some(6) | Some(11) | Some(7) | Some(4) if !oom => {
-                    // deep-but-finite or unbounded recursion?  (for the reader; not part of the key)
-                    let kind = if overflow {
-                        let mut big = job.clone();
-                        big.modes = vec![mode.clone()];
-                        big.stack_mb = 1024;
-                        match run_job(&big, limit) {
-                            Ran::Reply(_) => "stack overflow (finite recursion: passes on a 1 GiB stack)",
-                            Ran::Died { .. } => "stack overflow (still overflows a 1 GiB stack: unbounded recursion)",
-                            Ran::TimedOut { .. } => "stack overflow (1 GiB probe timed out)",
-                        }
-                    } else {
-                        "abort/fault without a stack-overflow message"
-                    };
+                    let kind = if overflow { "stack overflow" } else { "abort/fault without a stack-overflow message" };
                     Outcome::fail(
-                        format!("crash-signal:{stage}:{}", c.family),
+                        format!("crash-signal:{stage}:{}", c.tag),
                         format!(
                             "the process running the `{mode}` pipeline died with signal {} in stage `{stage}`: {kind}\nstderr: {}",
                             signal.unwrap(),
@@ -376,7 +409,7 @@ pub fn decide_within(ctx: &Ctx, c: &CaseInput, limit: Duration) -> Outcome {
                     "badtoml" | "badmode" => return Outcome::skip("harness: bad Veryl.toml / mode"),
                     "panic" => {
                         return Outcome::fail(
-                            panic_signature(&r.panic_loc, &r.panic_msg),
+                            panic_signature(&r.panic_loc, &r.panic_msg, &r.panic_frames),
                             format!(
                                 "`{}` pipeline, stage `{}`: panicked at {}: {}\n  frames: {}",
                                 r.mode,
@@ -428,6 +461,7 @@ fn payload_case(p: &serde_json::Value) -> Option<CaseInput> {
         .and_then(|m| serde_json::from_value(m.clone()).ok())
         .unwrap_or_else(|| vec!["build".to_string(), "fmt".to_string(), "ls".to_string()]);
     let family = p.get("family").and_then(|t| t.as_str()).unwrap_or("mutant").to_string();
+    let tag = p.get("tag").and_then(|t| t.as_str()).unwrap_or(&family).to_string();
     Some(CaseInput {
         family,
         files,
@@ -435,7 +469,8 @@ fn payload_case(p: &serde_json::Value) -> Option<CaseInput> {
         modes,
         classes: vec![],
         shaped: false,
-        tag: "payload".into(),
+        tag,
+        payload: true,
         timeout_s: p.get("timeout_s").and_then(|t| t.as_u64()).unwrap_or(0),
     })
 }
@@ -475,9 +510,10 @@ pub fn run(ctx: &Ctx) {
     let quick = ctx.is_quick();
     // development aid: C11_ONLY=mutated|shapes runs one generated sub-check
     let only = std::env::var("C11_ONLY").ok();
-    let n = ctx.scale(4000, 300_000);
+    let dev_cases: Option<usize> = std::env::var("C11_CASES").ok().and_then(|t| t.parse().ok());
+    let n = dev_cases.unwrap_or(ctx.scale(4000, 300_000));
     if only.as_deref().map(|o| o == "mutated").unwrap_or(true) {
-    ctx.run("mutated", CaseCfg::cases(n).choices(600).same_thread().timeout_s(1500), |d| {
+    ctx.run("mutated", CaseCfg::cases(n).choices(600).same_thread().timeout_s(1500).shrink_iters(SHRINK_ITERS), |d| {
         let i = usable[d.below_usize(usable.len())];
         let t = toks[i].as_ref().unwrap();
         let donor = usable[d.below_usize(usable.len())];
@@ -498,15 +534,16 @@ pub fn run(ctx: &Ctx) {
             classes,
             shaped: false,
             tag: "mutant".into(),
+            payload: false,
             timeout_s: 0,
         };
         decide(ctx, &c)
     });
     }
 
-    let n = ctx.scale(3000, 200_000);
+    let n = dev_cases.unwrap_or(ctx.scale(3000, 200_000));
     if only.as_deref().map(|o| o == "shapes").unwrap_or(true) {
-    ctx.run("shapes", CaseCfg::cases(n).choices(400).same_thread().timeout_s(1500), |d| {
+    ctx.run("shapes", CaseCfg::cases(n).choices(400).same_thread().timeout_s(1500).shrink_iters(SHRINK_ITERS), |d| {
         let g = c11gen::shape(d, quick);
         if let Some(why) = &g.excluded {
             return Outcome::skip(format!("excluded by construction: {why}"));
@@ -522,6 +559,7 @@ pub fn run(ctx: &Ctx) {
             classes,
             shaped: g.shaped,
             tag: format!("{}/{}", g.family, g.variant),
+            payload: false,
             timeout_s: 0,
         };
         decide(ctx, &c)
